@@ -1,5 +1,5 @@
 (** * C09 -- interpreter gate names *)
-From QV Require Import Interp ScalarR C09T Form2P DftP C09T2 C09T3 C09T4.
+From QV Require Import Interp ScalarR C09T Form2P DftP C09T2 C09T3 C09T4 C09T5.
 
 Theorem C09_table : C09_table_stmt.
 Proof. exact C09_table_proof. Qed.
@@ -36,3 +36,7 @@ Print Assumptions C09_named_controls.
 Theorem C09_qelib1 : C09_qelib1_stmt.
 Proof. exact C09_qelib1_proof. Qed.
 Print Assumptions C09_qelib1.
+
+Theorem C09_bodies : C09_bodies_stmt.
+Proof. exact C09_bodies_proof. Qed.
+Print Assumptions C09_bodies.
